@@ -16,4 +16,5 @@ INVARIANT MarkedAreComplete
 INVARIANT ChildrenFirst
 INVARIANT NoStalePending
 INVARIANT HalfRewrittenNeverMarked
+INVARIANT EditsAreChecked
 ACTION_CONSTRAINT Emit
